@@ -306,10 +306,13 @@ def run(model, col, tier):
     col.check(bool(text) and text[-1].count("{}") == 3 and text[-1].index("variable") < text[-1].index("already declared"), "R20.4",
               "nsl/Errors.py::ERROR_VARIABLE_NAME_ALREADY_USED placeholders", "three positional placeholders: name, (new), already declared here (existing)", None, "nsl/Errors.py", msg)
     ce = model.cls("nsl/Errors.py", "CompileException").own_method("__init__")
-    col.check("message.message.format(*args)" in unparse(ce), "R20.4", "nsl/Errors.py::CompileException formats positionally", "message.format(*args)", None, "nsl/Errors.py", ce)
+    from ..sem import alpha as _alpha204
+
+    col.check("p0.message.format(*p1)" in _alpha204(ce), "R20.4", "nsl/Errors.py::CompileException formats positionally", "message.format(*args)", None, "nsl/Errors.py", ce)
     lv = model.cls(NAMES, "ValidateVariableNamesVisitor")
     vd = lv.own_method("v_VariableDeclaration")
-    col.check("decl.GetName(), decl.GetLocation()" in unparse(vd).replace("\n", " "), "R20.4", f"{NAMES}::v_VariableDeclaration passes its own location",
+    dp20 = vd.args.args[1].arg
+    col.check(f"{dp20}.GetName(), {dp20}.GetLocation()" in unparse(vd).replace("\n", " "), "R20.4", f"{NAMES}::v_VariableDeclaration passes its own location",
               "ctx.Add(decl.GetName(), decl.GetLocation())", "the declaration does not pass its own name and location", NAMES, vd)
     # every name registered for the redeclaration diagnostic carries the location of the entity that bears the name
     nadd = 0
